@@ -55,7 +55,7 @@ for rnd in sorted(rounds):
     r = rounds[rnd]
     out.append('| %s | %d | %d | %d | %d |' % (rnd, r['n'], r['first'], r['now'], r['cross']))
 out.append('\nEvery miss was turned into a generator / oracle extension (last column) - never into a special case for the change; the '
-           'extension was first run on the unchanged tree at seeds 1-3 (quiet, or a genuine defect: F43 and F44 were found this way).\n')
+           'extension was first run on the unchanged tree at seeds 1-3 (quiet, or a genuine defect: F43-F52 were found this way and repaired).\n')
 out.append('| seed | property | what it changes / needs | quick | thorough | killing signatures | strengthened |\n|---|---|---|---|---|---|---|')
 for mpath in seeds:
     m = json.load(open(mpath))
